@@ -20,6 +20,16 @@
     A mounted effect whose accessor only reads untracked never subscribes: it shows for ever what it showed when it
     was mounted; it is a frozen observer too.
 
+    The plural and format macros (t_plural/mod.rs, t_format/mod.rs) bind their first argument once
+    (`let _ctx = e;` — a copy of the handle) and read the locale where the output is produced:
+      - `t_plural!` / `t_plural_ordinal!`: `move || { let _locale = get_locale(_ctx); match category(_locale, count) { arms } }` —
+        a closure, the locale is read (tracked) on every call;  `tu_plural!` / `tu_plural_ordinal!`: the same `match`
+        evaluated in place with `get_locale_untracked`;
+      - `t_format!` / `tu_format!`: `move || { let _locale = get_locale[_untracked](_ctx); format_*_to_view(_locale, value, options) }`;
+        the `_string` / `_display` forms are evaluated in place.
+    What such an accessor renders is a function of the locale it reads (the selected arm, the formatted text): for a
+    text function [txt], [render_with txt] below.
+
     Extended machines: state = (state of Context.v, values of the frozen observers); an extended operation is
     erased to an operation of Context.v ([erase]) and may add a frozen observer ([freezes]).  No proofs here. *)
 From Coq Require Import List NArith Bool Arith.
@@ -28,7 +38,10 @@ From LI Require Import Runtime.Resolve.
 From LI Require Import Runtime.Context.
 Open Scope N_scope.
 
-Inductive macro := MT | MTu | MTString | MTuString | MTDisplay | MTuDisplay | MTd | MTdString | MTdDisplay.
+Inductive macro :=
+| MT | MTu | MTString | MTuString | MTDisplay | MTuDisplay | MTd | MTdString | MTdDisplay
+| MTPlural | MTuPlural | MTPluralOrd | MTuPluralOrd
+| MTFormat | MTuFormat | MTFormatString | MTuFormatString | MTFormatDisplay | MTuFormatDisplay.
 
 (** syntactic kind of the first macro argument.  For a macro taking a context, built from the handle `c`:
       EIdent `c` | EUseCall `use_i18n()` | EScopeInline `scope_i18n!(c, ns)` | EUseScopedInline `use_i18n_scoped!(ns)` |
@@ -52,8 +65,8 @@ Definition fl_frozen (f : flavour) : bool :=
 (** rendering the accessor inside an effect subscribes the effect to the locale signal *)
 Definition fl_tracked (f : flavour) : bool :=
   match f_macro f with
-  | MT | MTString | MTDisplay => true
-  | MTu | MTuString | MTuDisplay => false
+  | MT | MTString | MTDisplay | MTPlural | MTPluralOrd | MTFormat | MTFormatString | MTFormatDisplay => true
+  | MTu | MTuString | MTuDisplay | MTuPlural | MTuPluralOrd | MTuFormat | MTuFormatString | MTuFormatDisplay => false
   | MTd | MTdString | MTdDisplay =>
       match f_expr f with EIdent | EUseScopedInline | EFnCall => false | _ => true end
   end.
@@ -119,6 +132,10 @@ Definition xa_run (xa : astate * list N) (xops : list xop) : astate * list N := 
 Definition xspec_trace (l0 : N) (con : bool) (xops : list xop) : list xobs :=
   xa_obs (a_init l0 con, []) :: xa_trace (a_init l0 con, []) xops.
 
+(** what accessor [k] renders when its output is the function [txt] of the locale it reads (the arm `t_plural!` selects
+    for the CLDR category of a count, the text ICU4X produces for a value and options, the translation of a key) *)
+Definition render_with {T : Type} (txt : N -> T) (s : cstate) (k : nat) : T := txt (c_ar s (c_acc s k)).
+
 (** the knowledge machine of the executable predicate, run over a history *)
 Definition k_run (k : kstate) (ops : list op) : kstate := fold_left k_step ops k.
 
@@ -127,3 +144,25 @@ Definition k_run (k : kstate) (ops : list op) : kstate := fold_left k_step ops k
     model by the correspondence check. *)
 Definition xspec_C16 (l0 : N) (con : bool) (xops : list xop) (tr : list xobs) : bool :=
   spec_C16 l0 con (map erase xops) (map fst tr).
+
+(** * Reading a rendering that is a function of the locale (used by the correspondence check)
+    A table [t] gives, per locale index, the class of the text the fixed-locale macro (`td_plural!`, `td_format!`) renders
+    for one payload; an observed class [r] is read back as a locale whose class it is — the first of [cands] (the
+    locale the context itself shows / the model expects) that qualifies, else the least such locale, else 99.
+    [decode_iff] (ContextAccProofs.v): the result is the expected locale exactly when the text is that locale's. *)
+Definition tbl := list N.
+Definition tbl_get (t : tbl) (l : N) : N := nth (N.to_nat l) t 99.
+Fixpoint find_cand (t : tbl) (r : N) (cands : list N) : option N :=
+  match cands with
+  | [] => None
+  | c :: cs => if tbl_get t c =? r then Some c else find_cand t r cs
+  end.
+Definition decode (t : option tbl) (cands : list N) (r : N) : N :=
+  match t with
+  | None => r
+  | Some t =>
+      match find_cand t r cands with
+      | Some c => c
+      | None => match find_cand t r (map N.of_nat (seq 0 (length t))) with Some c => c | None => 99 end
+      end
+  end.
